@@ -633,11 +633,11 @@ pub fn supervise(prop: &dyn Prop, cfg: &SupervisorCfg) -> i32 {
     let replays_dir = format!("{}/replays", verif_home());
     let _ = std::fs::create_dir_all(&replays_dir);
     let mut reported = 0;
-    let n_unknown = unknown.len();
     for (class, (i, detail)) in &unknown {
         if reported >= 8 {
-            println!("... {} further violation classes not minimised", n_unknown - reported);
-            break;
+            rc = 1;
+            println!("unminimised violation class={} run_index={} detail={}", class, i, one_line(detail, 200));
+            continue;
         }
         reported += 1;
         rc = 1;
@@ -648,7 +648,7 @@ pub fn supervise(prop: &dyn Prop, cfg: &SupervisorCfg) -> i32 {
         let (min_sc, steps, minimised) = if is_abort {
             (scenario.clone(), 0, false)
         } else {
-            let (s, n) = shrink(prop, &scenario, class, 400);
+            let (s, n) = shrink(prop, &scenario, class, prop.shrink_budget());
             (s, n, true)
         };
         let fname = format!("{}/{}-{}-{}-{}.json", replays_dir, id, cfg.seed, i, sanitize(class));
